@@ -10,32 +10,69 @@ THEOREMS = [
     "Rtosc.ArgVal.cmp_lexicographic", "Rtosc.ArgVal.compress_blind",
     "Rtosc.ArgVal.compress_const_run", "Rtosc.ArgVal.compress_arith_run", "Rtosc.ArgVal.expandList_arr_congr",
     "Rtosc.ArgVal.eq_spec",
+    "Rtosc.ArgVal.range_arith_int", "Rtosc.ArgVal.range_arith_float", "Rtosc.ArgVal.range_arith_bool",
+    "Rtosc.ArgVal.avmessage_of_values",
 ]
 HARNESS = {"src": ["argval.cpp"], "deps": ["common.h", "argval.cpp"]}
-RULE = ("op line = 2 or 3 argument-value lists in the library's flat memory layout; lists of 0..6 values over "
+RULE = ("op line = 2 or 3 argument-value lists in the library's flat memory layout + tags; lists of 0..6 values over "
         "every type (i c r h t f d m s S b T F N I), values from small sets (ties, prefixes, NULL strings, "
         "signed zero, infinities, boundary integers), arrays of every element type with 0..4 elements (also nested, "
         "also tagged with the first/last element's type or ' '), triples built by mutating/truncating a common "
         "list; for compress-blindness each list is paired with other layouts of the same expanded list (every "
         "choice of `N x value` and `start … end` ranges over its constant and arithmetic runs, recursively inside "
-        "arrays; exhaustive per list in the thorough tier up to 64 layouts); a small stream with infinite ranges and "
-        "NaNs is compared with the model only.  A case is non-trivial when some list has >= 2 cells; "
-        "distinct = distinct op line")
+        "arrays; exhaustive per list in the thorough tier up to 64 layouts); 5 % of the ops leave the small sets: "
+        "(a) values from the whole range of their type (random 64-bit t/h, 32-bit i/c/r, MIDI, finite float/double "
+        "bit patterns, strings/blobs of 0..40 bytes over {00 01 41 61 80 ff}) against their one-bit / one-byte / "
+        "truncated neighbours, bare, inside lists and inside arrays; (b) constant runs (of scalars and of arrays) and "
+        "arithmetic runs of every delta type (c i h f d T/F) of 7, 17, 129, 130 and 300 values as `N x v` / range, "
+        "written out, split in two ranges, half written out, against the run continued by one value or with one "
+        "value changed/removed; (c) lists of more than 130 cells with arrays of 5..40 elements; "
+        "every op is run with opt = NULL, get_default_cmp_options() or an options struct {0.0} on the stack (3:1:1), "
+        "and 40 % of the ops whose lists are single values go through rtosc_arg_vals_eq_single/_cmp_single; "
+        "a small stream with infinite ranges and NaNs is compared with the model only.  "
+        "A case is non-trivial when some list has >= 2 cells; distinct = distinct op line")
 ASSUMPTIONS = ["lists are well-formed flat layouts of structured argument lists (array `len` = number of cells, "
                "range header followed by [delta] start, delta and start of the same numeric type c i h f d or T/F)",
-               "no infinite range (num = 0) and no NaN in the lists the order laws are stated for",
+               "no infinite range (num = 0) and no NaN in the lists the order laws are stated for (NaN is not excluded by "
+               "the property text: with IEEE comparison a NaN is 'less' than everything in both directions, declared here)",
+               "reading of 'orders …': lists and arrays are ordered by their first differing value, a proper prefix first; "
+               "numbers = i c h (as integers) and f d (IEEE order, -0 = +0); strings up to their terminator as unsigned bytes. "
+               "The statement fixes no order for MIDI values, colours ('r'), values of different types, a NULL string "
+               "against a string, arrays of different element type ('T' and 'F' count as one) and NaN: for pairs of lists "
+               "decided by such values the check requires the laws and compress-blindness only (the sign is neither "
+               "compared with the model nor with a reference); the Lean model nevertheless fixes these orders as the code "
+               "has them (memcmp, type character, NULL first, element type character) and the theorems are about that model",
+               "lists with infinite ranges are outside the property (equality is not transitive on them); their eq/cmp results "
+               "are compared with the model as the code has them, a disagreement there is reported without a failing input",
+               "the bytes of an OSC message built from a list that contains an array are not part of the property (only that "
+               "they do not depend on the layout): the check compares them between the lists of one op, not with the model",
                "integer range arithmetic wraps around in two's complement (fixes/C10-10-argval-math-wrap.patch); on a tree "
                "without that patch the generator stays inside int32/int64 (signed overflow is undefined behaviour in C)",
-               "default comparison options (float_tolerance 0.0)",
+               "default comparison options only: opt == NULL, get_default_cmp_options() or any struct with float_tolerance 0.0 "
+               "(all three are exercised and must give identical results); a non-zero float_tolerance is not covered "
+               "(equality within a tolerance is not transitive)",
                "fix patches fixes/C16-blob-prefix, C16-array-type, C16-itr-repeated-array, C01-avmessage (and C10-10-argval-math-wrap for wrapping ranges) are applied"]
 TRUSTED = ["hand-written models RtoscModel/ArgVal/{Val,Float,Math,Itr,Cmp,Msg}.lean of arg-val-cmp.c, arg-val-itr.c, "
            "rtosc_arg_val_range_arg (arg-val-math.c) and rtosc_avmessage (arg-val.c); C01's model of rtosc_amessage",
-           "memcmp/strcmp modelled by their sign; IEEE-754 round-to-nearest-even float/double arithmetic (SSE)"]
+           "memcmp/strcmp modelled by their sign; IEEE-754 round-to-nearest-even float/double arithmetic (SSE)",
+           "the law check on the raw signs (`L` verdict) is evaluated inside the harness (harness/argval.cpp law_verdict) "
+           "and, identically, in the driver; the reference order in tools/props/c16.py decides which signs are withheld"]
 LEVEL_TEXT = ("Lean theorems (cmp_refl, cmp_antisymm, cmp_trans, cmp_zero_iff_eq, orders_as_documented, "
-              "cmp_lexicographic, compress_blind, compress_const_run, compress_arith_run) hold for all argument lists of "
-              "any length and nesting without infinite ranges and NaN; the model they are about is compared with the "
-              "compiled implementation (ASan/UBSan) on generated pairs/triples and all their compressed layouts, and the "
-              "order laws and compress-blindness are also checked directly on the implementation's outputs")
+              "cmp_lexicographic, compress_blind, compress_const_run, compress_arith_run, range_arith_int/_float/_bool, "
+              "avmessage_of_values) hold for all argument lists of any length and nesting without infinite ranges and NaN, "
+              "for the comparison with the default options (opt == NULL; the options argument is not modelled); the model "
+              "they are about is compared with the compiled implementation (ASan/UBSan) on generated pairs/triples and all "
+              "their compressed layouts — also with explicitly passed default options and through the _single entry "
+              "points — and the order laws, the stated per-type orders (on whole lists) and compress-blindness are also "
+              "checked directly on the implementation's outputs")
+LEVEL_NOTE = ("Trusted: Lean kernel; the hand-written model is tied to the code by differential execution only; see evidence trusted_base.  "
+              "Val.cmpList (the order the theorems speak about) reuses the model's cmpScalar also for the orders the property "
+              "does not state (MIDI by memcmp, different types by type character, NULL string first, flags equal, array "
+              "element types by character); the float order is the IEEE order expressed through the monotone key FFmt.key; "
+              "an 'arithmetic run' is start + i*delta as range_arith_int/_float/_bool spell it out (wrapping integers, one "
+              "rounding per float operation); the message clause of compress_blind is an equation of defined results when "
+              "the list has no NULL string at top level (avmessage_of_values), with a NULL string both sides are the same "
+              "undefined call strlen(NULL)")
 
 # ------------------------------------------------------------------------------------------
 # values, reference arithmetic (independent of the Lean model)
@@ -228,6 +265,178 @@ def expand(items):
                 out.append(v)
         else:
             out.append(it)
+    return out
+
+
+def parse_scalar(tok):
+    k = tok[0]
+    r = tok[1:]
+    if k in "icrh":
+        return (k, int(r))
+    if k == "t":
+        return (k, int(r))
+    if k in "fd":
+        return (k, int(r, 16))
+    if k == "m":
+        return (k, bytes.fromhex(r))
+    if k in "sS":
+        return (k, None if r == "~" else (b"" if r == "-" else bytes.fromhex(r)))
+    if k == "b":
+        return (k, b"" if r == "-" else bytes.fromhex(r))
+    if k in "TFNI" and not r:
+        return (k,)
+    return None
+
+
+def parse_flat(tok):
+    """flat cell tokens of one list -> items (None: not a well-formed layout)"""
+    cells = [] if tok == "-" else tok.split(",")
+
+    def one(pos, end):
+        """the item starting at cell pos -> (item, next pos)"""
+        c = cells[pos]
+        if c[0] == "a":
+            ln = int(c[4:])
+            if ln < 0 or pos + 1 + ln > end:
+                raise ValueError
+            return ("a", int(c[1:3], 16), many(pos + 1, pos + 1 + ln)), pos + 1 + ln
+        if c[0] == "-":
+            num, hd = c[1:].split(".")
+            if int(hd):
+                if pos + 3 > end:
+                    raise ValueError
+                d, st = parse_scalar(cells[pos + 1]), parse_scalar(cells[pos + 2])
+                if d is None or st is None:
+                    raise ValueError
+                return ("range", int(num), d, st), pos + 3
+            if pos + 2 > end or cells[pos + 1][0] == "-":
+                raise ValueError
+            x, nxt = one(pos + 1, end)
+            return ("rep", int(num), x), nxt
+        v = parse_scalar(c)
+        if v is None:
+            raise ValueError
+        return v, pos + 1
+
+    def many(pos, end):
+        out = []
+        while pos < end:
+            it, pos = one(pos, end)
+            out.append(it)
+        return out
+
+    try:
+        return many(0, len(cells))
+    except (ValueError, IndexError):
+        return None
+
+
+def has_infinite(items):
+    for it in items:
+        if it[0] in ("rep", "range") and it[1] <= 0:
+            return True
+        if it[0] == "a" and has_infinite(it[2]):
+            return True
+        if it[0] == "rep" and it[2][0] == "a" and has_infinite(it[2][2]):
+            return True
+    return False
+
+
+def denoted(tok):
+    """the value list a flat list token denotes; None: infinite range / arithmetic undefined / malformed"""
+    items = parse_flat(tok)
+    if items is None or has_infinite(items):
+        return None
+    return expand(items)
+
+
+def unrolled(items, n):
+    """top-level infinite ranges written out n times; None when an infinite range sits inside an array"""
+    out = []
+    for it in items:
+        if it[0] in ("rep", "range") and it[1] <= 0:
+            it = (it[0], n) + tuple(it[2:])
+        out.append(it)
+    return None if has_infinite(out) else out
+
+
+# ------------------------------------------------------------------------------------------
+# the order the property states (reference, independent of the Lean model).  `None` = the statement
+# fixes no order for this pair: MIDI, colours, values of different types, a NULL string against a
+# string, arrays of different element type, NaN.  Lists and arrays are read lexicographically (first
+# differing value decides, a proper prefix first).
+# ------------------------------------------------------------------------------------------
+def sgn(x):
+    return (x > 0) - (x < 0)
+
+
+def doc_order(a, b):
+    """stated order of two scalars (0 also for identical values of a type without a stated order)"""
+    t = a[0]
+    if t != b[0]:
+        return None
+    if t in "ich":
+        return sgn(a[1] - b[1])
+    if t in "fd":
+        x = bits32f(a[1]) if t == "f" else bits64f(a[1])
+        y = bits32f(b[1]) if t == "f" else bits64f(b[1])
+        if x != x or y != y:
+            return None
+        return sgn((x > y) - (x < y))
+    if t == "t":
+        if a[1] == 1 or b[1] == 1:
+            return 0 if a[1] == b[1] else (-1 if a[1] == 1 else 1)
+        return sgn(a[1] - b[1])
+    if t in "sS":
+        if a[1] is None or b[1] is None:
+            return 0 if a[1] is None and b[1] is None else None
+        x, y = a[1].split(b"\0")[0], b[1].split(b"\0")[0]
+        return (x > y) - (x < y)
+    if t == "b":
+        return (a[1] > b[1]) - (a[1] < b[1])
+    if t in "mr":
+        return 0 if a[1] == b[1] else None
+    return 0        # T F N I
+
+
+def arr_compatible(t1, t2):
+    return t1 == t2 or (t1 in (84, 70) and t2 in (84, 70))
+
+
+def val_order(a, b):
+    if a[0] == "a" and b[0] == "a":
+        return list_order(a[2], b[2]) if arr_compatible(a[1], b[1]) else None
+    if a[0] == "a" or b[0] == "a":
+        return None
+    return doc_order(a, b)
+
+
+def list_order(vs, ws):
+    for a, b in zip(vs, ws):
+        c = val_order(a, b)
+        if c is None or c != 0:
+            return c
+    return sgn(len(vs) - len(ws))
+
+
+def unstated_tags(list_toks):
+    """`=uIJ` for every pair of lists whose order the statement does not fix.  An infinite range (outside
+    the property, compared with the model only) is written out far enough to reach every value the other
+    lists have: a pair that is decided by values without a stated order is tagged as well."""
+    items = [parse_flat(t) for t in list_toks]
+    den = [expand(l) if l is not None and not has_infinite(l) else None for l in items]
+    if any(l is not None and has_infinite(l) for l in items):
+        fin = [expand([it for it in l if not (it[0] in ("rep", "range") and it[1] <= 0)]) for l in items if l is not None]
+        n = 2 + max([len(v) for v in fin if v is not None] + [0])
+        for k, l in enumerate(items):
+            if l is not None and has_infinite(l):
+                l = unrolled(l, n)
+                den[k] = expand(l) if l is not None else None
+    out = []
+    for i in range(len(den)):
+        for j in range(i + 1, len(den)):
+            if den[i] is not None and den[j] is not None and list_order(den[i], den[j]) is None:
+                out.append("=u%d%d" % (i, j))
     return out
 
 
@@ -455,8 +664,148 @@ def count_stats(stats, toks):
             stats["cells"][k] = stats["cells"].get(k, 0) + 1
 
 
+ALPH = [0x00, 0x01, 0x41, 0x61, 0x80, 0xff]
+WIDE_TYPES = "tthhiircmfdsSbb"
+T_EDGES = [0, 2, 3, 2 ** 31, 2 ** 32 - 1, 2 ** 32, 2 ** 32 + 1, 2 ** 63 - 1, 2 ** 63, 2 ** 63 + 1, 2 ** 64 - 2, 2 ** 64 - 1]
+
+
+def wide_scalar(rng, t):
+    """a value from the whole range of its type (not from the small pools)"""
+    if t == "t":
+        return ("t", rng.choice(T_EDGES) if rng.random() < 0.3 else rng.getrandbits(64))
+    if t == "h":
+        return ("h", (rng.choice(T_EDGES) if rng.random() < 0.3 else rng.getrandbits(64)) - 2 ** 63)
+    if t in "icr":
+        return (t, rng.getrandbits(32) - 2 ** 31)
+    if t == "m":
+        return ("m", bytes(rng.getrandbits(8) for _ in range(4)))
+    if t == "f":
+        b = rng.getrandbits(32)
+        return ("f", b & 0xbfffffff if (b & 0x7fffffff) > 0x7f800000 else b)
+    if t == "d":
+        b = rng.getrandbits(64)
+        return ("d", b & 0xbfffffffffffffff if (b & 0x7fffffffffffffff) > 0x7ff0000000000000 else b)
+    n = rng.choice([0, 1, 2, 3, 4, 5, 8, 9, 16, 17, 33, 40]) if rng.random() < 0.7 else rng.randint(0, 40)
+    return (t, bytes(rng.choice(ALPH) for _ in range(n)))
+
+
+def near(rng, v):
+    """a value of the same type that differs from v in one bit / one byte / by truncation"""
+    t = v[0]
+    if t in "thicr":
+        bits = 64 if t in "th" else 32
+        off = 0 if t == "t" else 2 ** (bits - 1)
+        k = rng.choice([0, 0, 1, 2, bits // 2 - 1, bits // 2, bits // 2 + 1, bits - 2, bits - 1, rng.randrange(bits)])
+        return (t, ((v[1] + off) ^ (1 << k)) - off)
+    if t == "m":
+        b = bytearray(v[1])
+        b[rng.randrange(4)] ^= 1 << rng.randrange(8)
+        return ("m", bytes(b))
+    if t in "fd":
+        bits = 32 if t == "f" else 64
+        for _ in range(8):
+            w = (t, v[1] ^ (1 << rng.choice([0, 1, bits - 1, rng.randrange(bits)])))
+            if not is_nan_val(w):
+                return w
+        return v
+    if t in "sSb":
+        b = bytearray(v[1] or b"")
+        r = rng.random()
+        if b and r < 0.5:           # one byte changed (often behind a 0x00 byte)
+            i = rng.randrange(len(b))
+            if 0 in b and rng.random() < 0.5:
+                i = rng.randrange(b.index(0), len(b))
+            b[i] = rng.choice([x for x in ALPH if x != b[i]])
+        elif b and r < 0.7:
+            del b[rng.randrange(len(b)):]
+        elif b and r < 0.8:
+            del b[rng.randrange(len(b))]
+        else:
+            b.insert(rng.randint(0, len(b)), rng.choice(ALPH))
+        return (t, bytes(b))
+    return v
+
+
+def wide_const(rng):
+    """a value to repeat: small-pool or wide scalar, or an array"""
+    r = rng.random()
+    if r < 0.25:
+        return rand_array(rng, 0)
+    if r < 0.6:
+        return wide_scalar(rng, rng.choice(WIDE_TYPES))
+    return rand_scalar(rng, rng.choice(SCALAR_TYPES))
+
+
+def long_run(rng):
+    """(layouts of one long constant or arithmetic run, its values, a continuation layout or None)"""
+    n = rng.choice([7, 7, 17, 17, 129, 129, 130, 300])
+    if rng.random() < 0.35:
+        v = wide_const(rng)
+        k = rng.randint(1, n - 1)
+        lay = lambda x: ("a", x[1], rand_layout(rng, x[2], 0.5)) if x[0] == "a" else x
+        ls = [[("rep", n, lay(v))], [v] * n, [("rep", k, lay(v)), ("rep", n - k, v)], [v] * k + [("rep", n - k, lay(v))]]
+        return ls, [v] * n, [("rep", n + 1, v)]
+    t = rng.choice(DELTA_TYPES)
+    if t in "TF":
+        d, s = rng.choice([("T",), ("F",)]), rng.choice([("T",), ("F",)])
+    elif t == "c":
+        d, s = ("c", rng.choice([1, 1, 2, -1, 3])), ("c", rng.choice([0, 0, 1, 32, 97, 127, 200]))
+    elif t == "i":
+        d = ("i", rng.choice([1, -1, 2, 7, -3, 1000003, 0]))
+        s = ("i", rng.choice([0, 1, -5, 100, -2147483648 if d[1] >= 0 else 2147483647, rng.randint(-10 ** 6, 10 ** 6)]))
+        if ALLOW_WRAP[0] and rng.random() < 0.15:
+            d, s = ("i", rng.choice([2147483647, -2147483648, 16777259])), ("i", rng.getrandbits(32) - 2 ** 31)
+    elif t == "h":
+        d = ("h", rng.choice([1, -1, 3, 5000000000, -5000000000, 4294967296, 4294967297, 0]))
+        s = ("h", rng.choice([0, -7, 2147483647, -5000000000, rng.getrandbits(40)]))
+        if ALLOW_WRAP[0] and rng.random() < 0.15:
+            d, s = ("h", rng.choice([2 ** 63 - 1, -2 ** 63, 2 ** 62 + 5])), ("h", rng.getrandbits(64) - 2 ** 63)
+    elif t == "f":
+        d = ("f", rng.choice([0x3f000000, 0x3f800000, 0xbf000000, 0x3dcccccd, 0x3e800000, 0x41200000, 0x00000001, 0x80000000]))
+        s = ("f", rng.choice([0x00000000, 0x3f800000, 0xc2c80000, 0x3dcccccd, 0x4b7ffff0, 0x80000000]))
+    else:
+        d = ("d", rng.choice([0x3fe0000000000000, 0x3ff0000000000000, 0xbfe0000000000000, 0x3fb999999999999a,
+                              0x4024000000000000, 0x0000000000000001]))
+        s = ("d", rng.choice([0x0000000000000000, 0x3ff0000000000000, 0xc059000000000000, 0x3fb999999999999a,
+                              0x433ffffffffffff0]))
+    vals = [range_val(d, s, i) for i in range(n + 1)]
+    if any(v is None or is_nan_val(v) for v in vals):
+        return None
+    more, vals = [("range", n + 1, d, s)], vals[:n]
+    ls = [[("range", n, d, s)], list(vals)]
+    k = rng.randint(1, n - 1)
+    for cand in ([("range", k, d, s), ("range", n - k, d, vals[k])], vals[:k] + [("range", n - k, d, vals[k])],
+                 [("range", k, d, s)] + vals[k:]):
+        if expand(cand) == vals:        # float steps do not always restart exactly
+            ls.append(cand)
+    return ls, vals, more
+
+
+def long_list(rng):
+    """an expanded list of more than 130 cells: short runs of every type, arrays of 5..40 elements"""
+    out, cells = [], 0
+    target = rng.choice([131, 140, 200])
+    while cells < target:
+        if rng.random() < 0.25:
+            t = rng.choice(SCALAR_TYPES)
+            m = rng.randint(5, 40)
+            el = []
+            while len(el) < m:
+                el += rand_run(rng, t, rng.randint(1, 6))
+            el = el[:m]
+            a = ("a", ord(el[-1][0]), el)
+            k = rng.choice([1, 1, 2])
+            out += [a] * k
+            cells += k * (m + 1)
+        else:
+            k = rng.choice([1, 1, 2, 3, 5, 6])
+            out += rand_run(rng, rng.choice(SCALAR_TYPES), k)
+            cells += k
+    return out
+
+
 def generate(rng, tier, stats):
-    n = 30000 if tier == "quick" else 1000000
+    n = 30000 if tier == "quick" else 800000
     try:
         import os
         src = open(os.path.join(os.environ.get("VERIF_REPO", "/repo"), "src/cpp/arg-val-math.c")).read()
@@ -464,33 +813,50 @@ def generate(rng, tier, stats):
     except OSError:
         ALLOW_WRAP[0] = False
     stats.update({"triples": 0, "layout_pairs": 0, "layout_pair_with_third": 0, "exhaustive_layout_lists": 0,
-                  "exhaustive_layout_ops": 0, "infinite_or_nan_stream": 0, "cells": {}, "list_len_hist": {},
-                  "compressed_lists": 0, "wrapping_integer_ranges_generated": ALLOW_WRAP[0]})
+                  "exhaustive_layout_ops": 0, "infinite_or_nan_stream": 0, "wide_scalar_ops": 0, "long_run_ops": 0,
+                  "long_list_ops": 0, "cells": {}, "list_len_hist": {}, "max_cells_in_a_list": 0,
+                  "compressed_lists": 0, "pairs_without_stated_order": 0, "options_variant": {"NULL": 0, "default": 0, "stack": 0},
+                  "single_entry_point_ops": 0, "wrapping_integer_ranges_generated": ALLOW_WRAP[0]})
 
     def emit(lists, tags):
         toks = []
         for l in lists:
             f = flatten(l)
             count_stats(stats, f)
-            stats["list_len_hist"][str(len(f))] = stats["list_len_hist"].get(str(len(f)), 0) + 1
+            b = len(f) if len(f) < 8 else ("8-15" if len(f) < 16 else "16-127" if len(f) < 128 else "128+")
+            stats["list_len_hist"][str(b)] = stats["list_len_hist"].get(str(b), 0) + 1
+            stats["max_cells_in_a_list"] = max(stats["max_cells_in_a_list"], len(f))
             if any(c[0] == "-" for c in f):
                 stats["compressed_lists"] += 1
             toks.append(",".join(f) if f else "-")
+        ut = unstated_tags(toks)
+        stats["pairs_without_stated_order"] += len(ut)
+        tags = list(tags) + ut
+        # which entry points / options pointer the implementation is called with (the model is the same)
+        k = rng.choice([0, 0, 0, 1, 2])
+        stats["options_variant"][["NULL", "default", "stack"][k]] += 1
+        if k:
+            tags.append("=o%d" % k)
+        if rng.random() < 0.4 and all(len(l) == 1 and l[0][0] not in ("rep", "range") for l in lists):
+            tags.append("=sg")
+            stats["single_entry_point_ops"] += 1
         return " ".join(toks + tags)
+
+    def law_tag(ls):
+        return ["=nan"] if any(is_nan_val(v) for l in ls for v in l) else ["=law"]
 
     for it in range(n):
         r = rng.random()
-        if r < 0.45:
+        if r < 0.42:
             # triples of related lists, each in a random layout (laws + correspondence)
             a = rand_values(rng)
             b = mutate(rng, a) if rng.random() < 0.8 else rand_values(rng)
             c = mutate(rng, rng.choice([a, b])) if rng.random() < 0.8 else rand_values(rng)
             ls = [a, b, c]
             rng.shuffle(ls)
-            nan = any(is_nan_val(v) for l in ls for v in l)
             stats["triples"] += 1
-            yield emit([rand_layout(rng, l, 0.5) for l in ls], ["=nan"] if nan else ["=law"])
-        elif r < 0.75:
+            yield emit([rand_layout(rng, l, 0.5) for l in ls], law_tag(ls))
+        elif r < 0.71:
             # two layouts of the same expanded list (+ an unrelated third list)
             a = rand_values(rng)
             l1 = rand_layout(rng, a, 0.9)
@@ -503,7 +869,7 @@ def generate(rng, tier, stats):
             else:
                 stats["layout_pairs"] += 1
                 yield emit([l1, l2], ["=same01", "=law"])
-        elif r < 0.93:
+        elif r < 0.88:
             # every layout of one list against its plain form
             a = rand_values(rng, 5)
             ls = layouts(a, 64 if tier == "thorough" else 12)
@@ -512,6 +878,61 @@ def generate(rng, tier, stats):
             for l in ls[1:]:
                 stats["exhaustive_layout_ops"] += 1
                 yield emit([plain, l], ["=same01", "=law"])
+        elif r < 0.90:
+            # values from the whole range of their type and their one-bit / one-byte neighbours
+            v = wide_scalar(rng, rng.choice(WIDE_TYPES))
+            w = near(rng, v) if rng.random() < 0.9 else wide_scalar(rng, v[0])
+            x = near(rng, rng.choice([v, w])) if rng.random() < 0.8 else wide_scalar(rng, v[0])
+            trio = [v, w, x]
+            rng.shuffle(trio)
+            k = rng.random()
+            if k < 0.5:
+                ls = [[y] for y in trio]
+            elif k < 0.8:
+                pre, post = rand_values(rng, 2), rand_values(rng, 1)
+                ls = [pre + [y] + post for y in trio]
+            else:
+                pre = [rand_scalar(rng, v[0]) for _ in range(rng.randint(0, 2))]
+                ls = [[("a", ord(v[0]), pre + [y] * rng.randint(1, 2))] for y in trio]
+            stats["wide_scalar_ops"] += 1
+            yield emit([rand_layout(rng, l, 0.4) for l in ls], law_tag(ls))
+        elif r < 0.92:
+            # long constant / arithmetic runs (7, 17, 129, 130, 300 values) in several layouts
+            lr = long_run(rng)
+            if lr is None:
+                continue
+            lays, vals, more = lr
+            pre, post = rand_values(rng, 1), rand_values(rng, 1)
+            rng.shuffle(lays)
+            two = [pre + l + post for l in lays[:2]]
+            stats["long_run_ops"] += 1
+            k = rng.random()
+            if k < 0.35:
+                yield emit(two, ["=same01", "=law"])
+            else:
+                if k < 0.55:        # the run continued by one value: same number of cells, longer list
+                    third = pre + more + post
+                elif k < 0.8:       # one value changed / removed
+                    i = rng.randrange(len(vals))
+                    w = list(vals)
+                    if rng.random() < 0.3:
+                        del w[i]
+                    else:
+                        w[i] = near(rng, w[i]) if w[i][0] != "a" and rng.random() < 0.7 else wide_const(rng)
+                    third = pre + rand_layout(rng, w, 0.3 if len(w) < 40 else 0.0) + post
+                else:
+                    third = pre + (lays[2] if len(lays) > 2 else lays[0]) + post
+                yield emit(two + [third], ["=same01"] + law_tag([expand(third) or []]))
+        elif r < 0.93:
+            # long lists (> 130 cells) with long arrays
+            a = long_list(rng)
+            l1 = rand_layout(rng, a, 0.9)
+            l2 = list(("a", v[1], rand_layout(rng, v[2], 0.0)) if v[0] == "a" else v for v in a)
+            stats["long_list_ops"] += 1
+            if rng.random() < 0.5:
+                yield emit([l1, l2, rand_layout(rng, mutate(rng, a), 0.5)], ["=same01", "=law"])
+            else:
+                yield emit([l1, l2], ["=same01", "=law"])
         else:
             # infinite ranges / NaN: model correspondence only
             a = rand_values(rng, 4)
@@ -544,69 +965,27 @@ def nontrivial(op):
 # oracle: the property, on the implementation's output (independent of the Lean model)
 # ------------------------------------------------------------------------------------------
 def parse_out(out, n):
+    """-> E (ints), C (ints, or 'x' = non-zero with the sign withheld), L (verdict of the law check on the
+    raw signs, None when not printed), iterations, messages"""
     try:
         w = out.split(" ")
-        assert w[0] == "E" and w[1 + n * n] == "C" and w[2 + 2 * n * n] == "I"
+        assert w[0] == "E" and w[1 + n * n] == "C"
         e = [int(x) for x in w[1:1 + n * n]]
-        c = [int(x) for x in w[2 + n * n:2 + 2 * n * n]]
-        its = w[3 + 2 * n * n].split(";")
-        assert w[4 + 2 * n * n] == "M"
-        ms = w[5 + 2 * n * n:]
+        c = [x if x == "x" else int(x) for x in w[2 + n * n:2 + 2 * n * n]]
+        p = 2 + 2 * n * n
+        L = None
+        if w[p] == "L":
+            L = w[p + 1]
+            p += 2
+        assert w[p] == "I" and w[p + 2] == "M"
+        its = w[p + 1].split(";")
+        ms = w[p + 3:]
         assert len(its) == n and len(ms) == n
         E = [e[i * n:(i + 1) * n] for i in range(n)]
         C = [c[i * n:(i + 1) * n] for i in range(n)]
-        return E, C, its, ms
+        return E, C, L, its, ms
     except Exception:
         return None
-
-
-def parse_scalar(tok):
-    k = tok[0]
-    r = tok[1:]
-    if k in "icrh":
-        return (k, int(r))
-    if k == "t":
-        return (k, int(r))
-    if k in "fd":
-        return (k, int(r, 16))
-    if k == "m":
-        return (k, bytes.fromhex(r))
-    if k in "sS":
-        return (k, None if r == "~" else (b"" if r == "-" else bytes.fromhex(r)))
-    if k == "b":
-        return (k, b"" if r == "-" else bytes.fromhex(r))
-    return None
-
-
-def sgn(x):
-    return (x > 0) - (x < 0)
-
-
-def doc_order(a, b):
-    """documented order of two scalars of the same type (None: not documented / NaN)"""
-    t = a[0]
-    if t != b[0]:
-        return None
-    if t in "icrh":
-        return sgn(a[1] - b[1])
-    if t in "fd":
-        x = bits32f(a[1]) if t == "f" else bits64f(a[1])
-        y = bits32f(b[1]) if t == "f" else bits64f(b[1])
-        if x != x or y != y:
-            return None
-        return sgn((x > y) - (x < y))
-    if t == "t":
-        if a[1] == 1 or b[1] == 1:
-            return 0 if a[1] == b[1] else (-1 if a[1] == 1 else 1)
-        return sgn(a[1] - b[1])
-    if t in "sS":
-        if a[1] is None or b[1] is None:
-            return None
-        x, y = a[1].split(b"\0")[0], b[1].split(b"\0")[0]
-        return (x > y) - (x < y)
-    if t in "bm":
-        return (a[1] > b[1]) - (a[1] < b[1])
-    return None
 
 
 def oracle(op, out):
@@ -619,20 +998,27 @@ def oracle(op, out):
     p = parse_out(out, n)
     if p is None:
         return "unparsable output"
-    E, C, its, ms = p
+    E, C, L, its, ms = p
     if "=law" not in tags:
         return None
+    nz = lambda c: c == "x" or c != 0
+    # the laws on the raw signs (evaluated next to the implementation; signs of pairs whose order the statement
+    # does not fix are withheld from the output and only enter through this verdict)
+    if L is not None and L != "ok":
+        return "order laws violated (raw signs): " + L
     for i in range(n):
         if E[i][i] != 1 or C[i][i] != 0:
-            return "not reflexive on list %d: eq=%d cmp=%d" % (i, E[i][i], C[i][i])
+            return "not reflexive on list %d: eq=%d cmp=%s" % (i, E[i][i], C[i][i])
         for j in range(n):
-            if C[i][j] != -C[j][i]:
-                return "antisymmetry: cmp(%d,%d)=%d cmp(%d,%d)=%d" % (i, j, C[i][j], j, i, C[j][i])
-            if (E[i][j] == 1) != (C[i][j] == 0):
-                return "eq/cmp disagree on (%d,%d): eq=%d cmp=%d" % (i, j, E[i][j], C[i][j])
+            if (C[i][j] == "x") != (C[j][i] == "x") or (C[i][j] != "x" and C[i][j] != -C[j][i]):
+                return "antisymmetry: cmp(%d,%d)=%s cmp(%d,%d)=%s" % (i, j, C[i][j], j, i, C[j][i])
+            if (E[i][j] == 1) != (not nz(C[i][j])):
+                return "eq/cmp disagree on (%d,%d): eq=%d cmp=%s" % (i, j, E[i][j], C[i][j])
     for i in range(n):
         for j in range(n):
             for k in range(n):
+                if "x" in (C[i][j], C[j][k], C[i][k]):
+                    continue
                 if C[i][j] <= 0 and C[j][k] <= 0:
                     if C[i][k] > 0:
                         return "transitivity: %d<=%d<=%d but cmp(%d,%d)=%d" % (i, j, k, i, k, C[i][k])
@@ -640,7 +1026,7 @@ def oracle(op, out):
                         return "transitivity (strict): %d,%d,%d" % (i, j, k)
     if "=same01" in tags:
         if E[0][1] != 1 or C[0][1] != 0:
-            return "compression changes equality/order: eq=%d cmp=%d" % (E[0][1], C[0][1])
+            return "compression changes equality/order: eq=%d cmp=%s" % (E[0][1], C[0][1])
         for k in range(n):
             if E[0][k] != E[1][k] or E[k][0] != E[k][1] or C[0][k] != C[1][k] or C[k][0] != C[k][1]:
                 return "compression changes the comparison with list %d" % k
@@ -648,27 +1034,40 @@ def oracle(op, out):
             return "compression changes what iteration yields: %s vs %s" % (its[0][:80], its[1][:80])
         if ms[0] != ms[1]:
             return "compression changes the OSC message"
-    # documented per-type orders on single scalars
+    # stated orders: numbers numerically, strings lexicographically, blobs bytewise with a proper prefix first,
+    # 'immediately' before every other time tag; lists by their first differing value, a proper prefix first
+    den = [denoted(t) for t in lists]
     for i in range(n):
         for j in range(n):
-            if "," in lists[i] or "," in lists[j] or lists[i] == "-" or lists[j] == "-":
+            if den[i] is None or den[j] is None:
                 continue
-            if lists[i][0] in "a-" or lists[j][0] in "a-":
+            d = list_order(den[i], den[j])
+            if d is None or (C[i][j] == "x" and d != 0):
                 continue
-            a, b = parse_scalar(lists[i]), parse_scalar(lists[j])
-            if a is None or b is None:
-                continue
-            d = doc_order(a, b)
-            if d is not None and C[i][j] != d:
-                return "documented order: cmp(%s,%s)=%d, expected %d" % (lists[i], lists[j], C[i][j], d)
+            if C[i][j] != d:
+                return "documented order: cmp(%s,%s)=%s, expected %d" % (lists[i][:60], lists[j][:60], C[i][j], d)
     return None
 
 
+def retag(lists, tags):
+    keep = [t for t in tags if not t.startswith("=u")]
+    if any(len(parse_flat(l) or []) != 1 for l in lists):
+        keep = [t for t in keep if t != "=sg"]
+    return " ".join(list(lists) + keep + unstated_tags(lists))
+
+
 def neighbours(op, rng):
-    """ops near a disagreeing one: every pair / sub-list of its lists"""
+    """ops near a disagreeing one: every pair of its lists"""
     w = [t for t in op.split() if not t.startswith("=")]
     out = []
+    def lawful(t):      # the laws are stated for finite lists without NaN only
+        items = parse_flat(t)
+        if items is None or has_infinite(items):
+            return False
+        v = expand(items)
+        return v is not None and not any(is_nan_val(x) for x in v)
+
     for a in w:
         for b in w:
-            out.append("%s %s =law" % (a, b))
+            out.append(retag([a, b], ["=law"] if lawful(a) and lawful(b) else ["=corr"]))
     return out
